@@ -29,7 +29,8 @@ SPEC = {
     "crate": "h-slice",
     "level": "other",
     "harnesses": hs,
-    "native_replay": {"c42_known_rejected_2": native_rejected_demo},
+    "native_replay": {"c42_known_rejected_2": native_rejected_demo,
+                      "c42_rejected_2_paths": runner.make_native_replay("h-slice", "paths_consistent_in_all_small_rejection_histories", "every 2-call history of the harness' input class (paths of 1..=3 components over two names, one rejected push and/or push_directory), replayed natively through the sliced source")},
     "functions": ["gix_fs::Stack::{new, make_relative_path_current, current, current_relative} - the verbatim text of gix-fs/src/stack.rs and the Stack struct of gix-fs/src/lib.rs, regenerated from /repo on every run and compiled against a shim of the std::path / std::io items it uses"],
     "bounds": "histories of 2 (3 thorough) calls; relative paths of 1..=3 components over two distinct names; empty root",
     "outside": ["std::path semantics themselves (component splitting, separators, prefixes): replaced by the shim, where a path is a sequence of component ids",
